@@ -174,6 +174,26 @@ CHECKS = {
         design='4 (C09)',
         note='bit damage inside an index is outside the property; one known '
              'finding (stale pre-pack index passing the sanity heuristic)'),
+    'C10': dict(
+        technique='exhaustive enumeration of conflict scenarios (storage x '
+                  'class kind x reference formats x number and order of stale '
+                  'writers) on real connections, with a recording resolver',
+        text='Every combination of 3 storages that resolve conflicts, 6 class '
+             'kinds (resolver merging / raising ConflictError / raising '
+             'AttributeError / wrong arity, no resolver, class not importable '
+             'while resolving), 7 reference sets (ordinary, bare-oid, weak, '
+             'cross-database, weak cross-database, all) and 2-3 stale writers '
+             'in every commit order runs on a real multi-database setup. For '
+             'mergeable kinds the resolver must have been shown exactly '
+             '(base, committed, new) incl. every reference, the writer\'s copy '
+             'must be a ghost that reads the merged value, and a fresh '
+             'connection must load the merged value with every reference '
+             'still naming the same oid / database / weakness. All other '
+             'kinds must raise ConflictError and store nothing. Failing-then-'
+             'mergeable sequences on one class catch poisoned caches.',
+        design='5 (C10)',
+        note='MappingStorage has no resolution; the undo merge path is '
+             'checked by C06'),
     'C11': dict(
         technique='explicit-state exploration of all operation sequences up '
                   'to a depth on a real connection against an object-state '
